@@ -6,7 +6,8 @@ Canonical forms (plain JSON):
            binary64 value (exact; -0.0/NaN distinguished), ints/bools as themselves, anything else hashed
   items  = sorted [[label, arr], ...]
   keyed  = sorted [[key, items], ...]
-  payload= {"k": "arr", "a": arr} | {"k": "keyed", "m": keyed} | {"k": "frame", "c": items} | None (not initialised)
+  payload= {"k": "arr", "a": arr} | {"k": "keyed", "m": keyed} | {"k": "frame", "i": [row labels], "c": items}
+           | None (not initialised / no content)
 """
 from __future__ import annotations
 
@@ -82,7 +83,9 @@ def c_dataset(ds) -> list:
 def c_tree(tree) -> dict | None:
     """xr.DataTree -> keyed (path -> dataset items); the empty tree is None."""
     m = sorted(([str(p), c_dataset(ds)] for p, ds in tree.to_dict().items()), key=lambda x: x[0])
-    if all(not it for _, it in m) and len(m) <= 1:
+    # groups without any content other than the root are structure implied by their descendants' paths
+    m = [[p, it] for p, it in m if it or p == "/"]
+    if all(not it for _, it in m):
         return None
     return {"k": "keyed", "m": m}
 
@@ -105,14 +108,16 @@ def c_frame(df) -> dict | None:
     if df is None or len(df) == 0:
         return None
     cols = [[str(c), c_arr(df[c].to_numpy())] for c in df.columns]
-    cols.append(["<index>", c_arr(np.asarray(df.index))])
-    return {"k": "frame", "c": sorted(cols, key=lambda x: x[0])}
+    idx = [int(i) if isinstance(i, (int, np.integer)) else _h(i) for i in df.index]
+    return {"k": "frame", "i": idx, "c": sorted(cols, key=lambda x: x[0])}
 
 
 def c_props(obj) -> list:
     """geometry / environment / characteristics: every instance attribute, by name."""
     it = []
     for k, v in sorted(vars(obj).items()):
+        if k == "_numbytes":      # size cache, not a property of the detector
+            continue
         if hasattr(v, "__dict__") and not isinstance(v, np.ndarray):
             for k2, v2 in sorted(vars(v).items()):
                 it.append([f"{k}.{k2}", c_scalar(v2)])
